@@ -35,6 +35,8 @@ fn escape(value: &str) -> String {
             '>' => result.push_str("&gt;"),
             '"' => result.push_str("&quot;"),
             '\'' => result.push_str("&#39;"),
+            // a literal carriage return is turned into a line feed by every HTML and XML parser
+            '\r' => result.push_str("&#13;"),
             _ => result.push(c),
         }
     }
